@@ -40,7 +40,10 @@ import (
 	"k8s.io/apiserver/pkg/authentication/user"
 	"k8s.io/apiserver/pkg/authorization/authorizer"
 	apirequest "k8s.io/apiserver/pkg/endpoints/request"
+	"k8s.io/client-go/kubernetes"
 	kubefake "k8s.io/client-go/kubernetes/fake"
+	authnv1client "k8s.io/client-go/kubernetes/typed/authentication/v1"
+	authzv1client "k8s.io/client-go/kubernetes/typed/authorization/v1"
 	"k8s.io/client-go/kubernetes/scheme"
 	k8stesting "k8s.io/client-go/testing"
 
@@ -121,6 +124,10 @@ type errObs struct {
 type callObs struct {
 	C     string `json:"c"`
 	Ready bool   `json:"ready"`
+	// not part of the observation: the host for which the calling code obtained this client
+	// (ClientFor(host)), and whether the answer handed out makes the caller retry after a back-off
+	host  string
+	retry bool
 }
 
 type stepObs struct {
@@ -175,22 +182,104 @@ func c12Err(tag int64, retry bool) error {
 	return e
 }
 
-func (r *c12Rig) record(cluster string, ep *clusters.EndpointInfo) {
-	r.calls = append(r.calls, callObs{C: cluster, Ready: ep.IsReady()})
+func (r *c12Rig) record(cluster string, ep *clusters.EndpointInfo, host string, retry bool) {
+	r.calls = append(r.calls, callObs{C: cluster, Ready: ep.IsReady(), host: host, retry: retry})
 }
 
-// c12Gate holds the first review of one kind that one cluster receives until release is closed.
+// ---- attribution of a review to the request that issued it ----
+// The ClientProvider handed to the authenticator / authorizer is the real manager behind a thin
+// decorator: the clientset ClientFor(host) returns is wrapped so that every TokenReview /
+// SubjectAccessReview created through it carries the annotation verif-host=<host> (on a copy of the
+// object) when it reaches the endpoint's fake clientset.  Two overlapping requests are addressed to
+// different hosts, so each recorded review names the request that issued it and, independently, the
+// cluster whose endpoint received it.
+const c12HostAnn = "verif-host"
+
+type c12Provider struct {
+	inner clusters.ClientProvider
+}
+
+func (p *c12Provider) ClientFor(name string) (*clusters.ClusterInfo, kubernetes.Interface, error) {
+	ci, cs, err := p.inner.ClientFor(name)
+	if cs != nil {
+		cs = &c12Client{Interface: cs, host: name}
+	}
+	return ci, cs, err
+}
+
+type c12Client struct {
+	kubernetes.Interface
+	host string
+}
+
+func (c *c12Client) AuthenticationV1() authnv1client.AuthenticationV1Interface {
+	return &c12Authn{AuthenticationV1Interface: c.Interface.AuthenticationV1(), host: c.host}
+}
+func (c *c12Client) AuthorizationV1() authzv1client.AuthorizationV1Interface {
+	return &c12Authz{AuthorizationV1Interface: c.Interface.AuthorizationV1(), host: c.host}
+}
+
+type c12Authn struct {
+	authnv1client.AuthenticationV1Interface
+	host string
+}
+
+func (c *c12Authn) TokenReviews() authnv1client.TokenReviewInterface {
+	return &c12TR{TokenReviewInterface: c.AuthenticationV1Interface.TokenReviews(), host: c.host}
+}
+
+type c12TR struct {
+	authnv1client.TokenReviewInterface
+	host string
+}
+
+func (c *c12TR) Create(ctx context.Context, tr *authenticationv1.TokenReview, o metav1.CreateOptions) (*authenticationv1.TokenReview, error) {
+	cp := tr.DeepCopy()
+	cp.Annotations = map[string]string{c12HostAnn: c.host}
+	return c.TokenReviewInterface.Create(ctx, cp, o)
+}
+
+type c12Authz struct {
+	authzv1client.AuthorizationV1Interface
+	host string
+}
+
+func (c *c12Authz) SubjectAccessReviews() authzv1client.SubjectAccessReviewInterface {
+	return &c12SAR{SubjectAccessReviewInterface: c.AuthorizationV1Interface.SubjectAccessReviews(), host: c.host}
+}
+
+type c12SAR struct {
+	authzv1client.SubjectAccessReviewInterface
+	host string
+}
+
+func (c *c12SAR) Create(ctx context.Context, sar *authorizationv1.SubjectAccessReview, o metav1.CreateOptions) (*authorizationv1.SubjectAccessReview, error) {
+	cp := sar.DeepCopy()
+	cp.Annotations = map[string]string{c12HostAnn: c.host}
+	return c.SubjectAccessReviewInterface.Create(ctx, cp, o)
+}
+
+func c12ActionHost(action k8stesting.Action) string {
+	if ca, ok := action.(k8stesting.CreateAction); ok {
+		if m, ok := ca.GetObject().(metav1.Object); ok {
+			return m.GetAnnotations()[c12HostAnn]
+		}
+	}
+	return ""
+}
+
+// c12Gate holds the first review of one kind issued by the request for one host until release is closed.
 type c12Gate struct {
-	cluster, kind string
+	host, kind string
 	used          bool
 	entered       chan struct{}
 	release       chan struct{}
 }
 
 // takeGate is called by a reactor under r.mu; it returns the gate to wait on (or nil).
-func (r *c12Rig) takeGate(cluster, kind string) *c12Gate {
+func (r *c12Rig) takeGate(host, kind string) *c12Gate {
 	g := r.gate
-	if g == nil || g.used || g.cluster != cluster || g.kind != kind {
+	if g == nil || g.used || g.host != host || g.kind != kind {
 		return nil
 	}
 	g.used = true
@@ -226,15 +315,16 @@ func (r *c12Rig) newCluster(name string, n int) *clusters.ClusterInfo {
 		}
 		cs := kubefake.NewSimpleClientset()
 		epc := ep
-		cs.PrependReactor("create", "tokenreviews", func(k8stesting.Action) (bool, runtime.Object, error) {
+		cs.PrependReactor("create", "tokenreviews", func(action k8stesting.Action) (bool, runtime.Object, error) {
+			host := c12ActionHost(action)
 			r.mu.Lock()
-			r.record(name, epc)
 			a := c12Answer{K: "fail"}
 			if k := r.tidx[name]; k < len(r.tscript[name]) {
 				a = r.tscript[name][k]
 			}
 			r.tidx[name]++
-			g := r.takeGate(name, "T")
+			r.record(name, epc, host, a.K == "fail" && a.Retry)
+			g := r.takeGate(host, "T")
 			r.mu.Unlock()
 			g.wait() // the review is "in flight" until the harness releases it
 			switch a.K {
@@ -250,15 +340,16 @@ func (r *c12Rig) newCluster(name string, n int) *clusters.ClusterInfo {
 				return true, nil, c12Err(a.Tag, a.Retry)
 			}
 		})
-		cs.PrependReactor("create", "subjectaccessreviews", func(k8stesting.Action) (bool, runtime.Object, error) {
+		cs.PrependReactor("create", "subjectaccessreviews", func(action k8stesting.Action) (bool, runtime.Object, error) {
+			host := c12ActionHost(action)
 			r.mu.Lock()
-			r.record(name, epc)
 			a := c12Answer{K: "fail"}
 			if k := r.sidx[name]; k < len(r.sscript[name]) {
 				a = r.sscript[name][k]
 			}
 			r.sidx[name]++
-			g := r.takeGate(name, "S")
+			r.record(name, epc, host, a.K == "fail" && a.Retry)
+			g := r.takeGate(host, "S")
 			r.mu.Unlock()
 			g.wait()
 			if a.K == "status" {
@@ -299,11 +390,12 @@ func newC12Rig(c *c12Case) *c12Rig {
 	for _, kv := range c.Cfg.Reg {
 		r.mgr.AddWithKey(kv[0], r.infos[kv[1]])
 	}
-	r.tok = tokenwebhook.NewMultiClusterTokenReviewAuthenticator(r.mgr, time.Duration(c.Cfg.STTL), time.Duration(c.Cfg.FTTL), authenticator.Audiences{"gw"})
+	prov := &c12Provider{inner: r.mgr} // the real manager; only tags the clientsets it hands out
+	r.tok = tokenwebhook.NewMultiClusterTokenReviewAuthenticator(prov, time.Duration(c.Cfg.STTL), time.Duration(c.Cfg.FTTL), authenticator.Audiences{"gw"})
 	// the wiring of pkg/gateway/proxy/authenticator/config.go around the token authenticator
 	r.req = group.NewAuthenticatedGroupAdder(unionauth.New(bearertoken.New(r.tok), websocket.NewProtocolAuthenticator(r.tok)))
 	az, _, err := (&authzconfig.AuthorizerConfig{CacheAuthorizedTTL: time.Duration(c.Cfg.ATTL),
-		CacheUnauthorizedTTL: time.Duration(c.Cfg.DTTL), ClusterClientProvider: r.mgr}).New()
+		CacheUnauthorizedTTL: time.Duration(c.Cfg.DTTL), ClusterClientProvider: prov}).New()
 	must(err)
 	r.authz = az
 	return r
@@ -536,11 +628,15 @@ func (r *c12Rig) takeCalls() []callObs {
 	return out
 }
 
-// overlap: request A (op.Host) is started; the first review its cluster receives is held in flight;
-// meanwhile request B (op.Host2, same token / same attributes) must run to completion on its own
-// (bounded wait 300 ms); then A's review is released and A's result collected.
-// Reviews are attributed by phase: received before B starts or after the release -> A, received
-// while B runs (A is parked on the gate and makes none) -> B.
+// overlap: request A (op.Host) is started; the first review it issues is held in flight at the
+// endpoint that received it; meanwhile request B (op.Host2, same token / same attributes) must run
+// to completion on its own; then A's review is released and A's result collected.
+// B is given 300 ms, counted from its start and again from every review it issues (a review that
+// got a retriable failure is followed by the code's own back-off sleep of up to ~2 s, so the bound
+// is 2.5 s after such a review).  A request that makes no progress within the bound while A's
+// review is in flight is recorded as blocked.
+// Reviews are attributed to the request that issued them (host tag of the client they were created
+// through), never by timing.
 func (r *c12Rig) overlap(op *c12Op) stepObs {
 	kind := "T"
 	if op.Op == "overlaps" {
@@ -562,14 +658,19 @@ func (r *c12Rig) overlap(op *c12Op) stepObs {
 		}
 		return st
 	}
-	g := &c12Gate{kind: kind, entered: make(chan struct{}), release: make(chan struct{})}
+	hostA, hostB := "", ""
 	if op.Host != nil {
-		if ci, ok := r.mgr.Get(*op.Host); ok {
-			g.cluster = ci.Cluster
-		}
+		hostA = *op.Host
 	}
+	if op.Host2 != nil {
+		hostB = *op.Host2
+	}
+	if op.Host != nil && op.Host2 != nil && hostA == hostB {
+		panic("overlap: the two requests must be addressed to different hosts")
+	}
+	g := &c12Gate{kind: kind, host: hostA, entered: make(chan struct{}), release: make(chan struct{})}
 	r.mu.Lock()
-	if g.cluster != "" {
+	if op.Host != nil {
 		r.gate = g
 	}
 	r.mu.Unlock()
@@ -579,39 +680,66 @@ func (r *c12Rig) overlap(op *c12Op) stepObs {
 	select {
 	case <-g.entered: // A's review is in flight
 	case a = <-doneA: // A needed no review (cache hit / refused)
-	case <-time.After(5 * time.Second):
-		panic("overlap: request A neither asked its cluster nor returned")
+	case <-time.After(10 * time.Second):
+		panic("overlap: request A neither issued a review nor returned")
 	}
-	callsA := r.takeCalls()
 	doneB := make(chan *stepObs, 1)
 	go func() { doneB <- run(&opB) }()
 	blocked := false
-	select {
-	case b = <-doneB:
-	case <-time.After(300 * time.Millisecond):
-		blocked = true
+	deadline := time.Now().Add(300 * time.Millisecond)
+	seen := 0
+	for b == nil && !blocked {
+		select {
+		case b = <-doneB:
+		case <-time.After(2 * time.Millisecond):
+			r.mu.Lock()
+			n, last := 0, callObs{}
+			for _, cl := range r.calls {
+				if op.Host2 != nil && cl.host == hostB {
+					n++
+					last = cl
+				}
+			}
+			r.mu.Unlock()
+			if n > seen { // B made progress: it issued another review
+				seen = n
+				if last.retry {
+					deadline = time.Now().Add(2500 * time.Millisecond)
+				} else {
+					deadline = time.Now().Add(300 * time.Millisecond)
+				}
+			}
+			if time.Now().After(deadline) {
+				blocked = true
+			}
+		}
 	}
-	callsB := r.takeCalls()
 	close(g.release)
 	if a == nil {
 		select {
 		case a = <-doneA:
-		case <-time.After(20 * time.Second):
+		case <-time.After(30 * time.Second):
 			panic("overlap: request A did not return after its review was released")
 		}
 	}
 	if b == nil {
 		select {
 		case b = <-doneB:
-		case <-time.After(20 * time.Second):
+		case <-time.After(30 * time.Second):
 			panic("overlap: request B never returned")
 		}
 	}
-	callsA = append(callsA, r.takeCalls()...)
 	r.mu.Lock()
 	r.gate = nil
 	r.mu.Unlock()
-	a.Calls, b.Calls = callsA, callsB
+	a.Calls, b.Calls = []callObs{}, []callObs{}
+	for _, cl := range r.takeCalls() {
+		if op.Host2 != nil && cl.host == hostB {
+			b.Calls = append(b.Calls, cl)
+		} else {
+			a.Calls = append(a.Calls, cl) // issued through a client obtained for A's host (or untagged)
+		}
+	}
 	return stepObs{Kind: "P", Calls: []callObs{}, A: a, B: b, Blocked: blocked}
 }
 
